@@ -105,7 +105,7 @@ def run(ctx):
                 "missing masks; object level: Kuratowski-embedded series realising those matrices, "
                 "sparse_rqa on/off; distinct = distinct (kernel, n, matrix, mask); "
                 "non-trivial = matrix has both colours off the diagonal")
-    ctx.proofs("Pyunicorn.Properties.C08")
+    ctx.proofs()
 
     # ---------------- kernel-level correspondence --------------------------
     mats = []
@@ -169,11 +169,7 @@ def run(ctx):
                 meta.append((name, n, R, M))
                 ctx.case((name, n, R.tobytes().hex(), M), nontriv and any(M))
                 ctx.count(f"kernel:{name}")
-    model = common.driver(reqs)
-    bad = [i for i in range(len(reqs)) if model[i] != impl[i]]
-    ctx.obligation("correspondence: Lean LineDist model == compiled _line_dist wrappers "
-                   f"({len(reqs)} kernel calls)", "correspondence", not bad,
-                   "\n".join(f"{reqs[i][:200]} model={model[i]} impl={impl[i]}" for i in bad[:5]))
+    bad, model = ctx.correspond("Lean LineDist model == compiled _line_dist wrappers", reqs, impl)
     ctx.extra["kernel_calls_compared"] = len(reqs)
 
     # ---------------- oracle on the kernels (independent run-length count) ---
